@@ -6,11 +6,20 @@ set -u
 dir="$(cd "$1" && pwd)"; id="$2"; tier="${3:-quick}"
 here="$(cd "$(dirname "$0")/.." && pwd)"
 d=$(mktemp -d /tmp/vfseed.XXXXXX)
-mkdir -p "$d/repo" && cp -r /repo/src /repo/tests "$d/repo/" 2>/dev/null
+# a seed whose meta.json names a "base_commit" only manifests on that (earlier) commit of /repo - e.g. because a later
+# fix: commit made the change behaviour-preserving; it is applied to, and compared with, that commit's tree
+base=$(/venv/bin/python -c "import json,sys; print(json.load(open(sys.argv[1])).get('base_commit',''))" "$dir/meta.json" 2>/dev/null)
+mkdir -p "$d/repo" "$d/clean"
+if [ -n "$base" ]; then
+  git -C /repo archive "$base" src tests | tar -x -C "$d/repo" && git -C /repo archive "$base" src | tar -x -C "$d/clean"
+  clean="$d/clean/src"; echo "(base commit $base)"
+else
+  cp -r /repo/src /repo/tests "$d/repo/" 2>/dev/null; clean=/repo/src
+fi
 cd "$d/repo"
 if ! patch -p1 -s < "$dir/patch.diff"; then echo "SEED: PATCH DOES NOT APPLY"; rm -rf "$d"; exit 3; fi
 echo "SEED $dir"
-PYTHONPATH=/repo/src /venv/bin/python "$dir/demo.py" >/dev/null 2>&1; echo "  demo on clean /repo: exit $?  (want 0)"
+PYTHONPATH="$clean" /venv/bin/python "$dir/demo.py" >/dev/null 2>&1; echo "  demo on clean /repo: exit $?  (want 0)"
 PYTHONPATH="$d/repo/src" /venv/bin/python "$dir/demo.py" >/dev/null 2>&1; echo "  demo with change:    exit $?  (want non-zero)"
 cd "$here"
 VF_REPO_SRC="$d/repo/src" ./check "$id" "$tier" 2>&1 | grep -E "^VIOLATION|^KNOWN|MACHINERY|^C[0-9]+ " | cut -c1-220 | head -6
